@@ -16,7 +16,7 @@ from ..classex import ClassEx
 from ..model import Program, walk_own
 from ..report import AnalysisError
 from . import common
-from ..model import canon as K
+from ..model import canon as K, inline_temporaries
 
 MESH = common.MESH
 
@@ -53,7 +53,6 @@ def run(rep, tier):
     ok = False
     if inner:
         rets = [r for r in ast.walk(inner[0]) if isinstance(r, ast.Return)]
-        from ..model import inline_temporaries
         ok = len(rets) == 1 and T(mod, inline_temporaries(inner[0], rets[0].value)) == K("(f_R(x[0],x[1]),f_Z(x[0],x[1]))") and [a.arg for a in inner[0].args.args] == ["psi", "x"]
     rep.ob("R1", "ODE right-hand side is (f_R(R,Z), f_Z(R,Z)) with psi as the independent variable", ok, f.site(inner[0]) if inner else f.site(), "", key="ode/rhs")
     calls = [n for n in walk_own(f.node) if isinstance(n, ast.Call) and T(mod, n.func) == "solve_ivp"]
@@ -67,8 +66,35 @@ def run(rep, tier):
     ok = any(isinstance(s, ast.Assign) and T(mod, s) == K("psirange=(psi0,psivals[-1])") for s in walk_own(f.node))
     rep.ob("R1", "psirange = (psi0, last target)", ok, f.site(), "", key="ode/range")
     rets = [r for r in walk_own(f.node) if isinstance(r, ast.Return)]
-    ok = any(T(mod, r.value) in (K("[Point2D(*p) for p in solution.y.T]"), K("[Point2D(a, b) for a, b in solution.y.T]")) for r in rets)
-    rep.ob("R1", "the result is the list of solution points, one per target value", ok, f.site(), "", key="ode/result")
+    # the i-th returned point is Point2D(y[0][i], y[1][i]) of the solution reported at the i-th target
+    # (solution.y has one row per coordinate and one column per requested psi value), however the
+    # columns are walked: over y.T, over zip of the two rows, by index
+    from ..elements import element, NoElement
+    import re as _re
+    X = r"([A-Za-z_][\w.]*)"
+    def columns(t):
+        t = _re.sub(r"\*<" + X + r"\.T\[i\]>", r"<\1[0][i]>,<\1[1][i]>", t)
+        t = _re.sub(r"\*" + X + r"\[:,<i>\]", r"<\1[0][i]>,<\1[1][i]>", t)
+        t = _re.sub(r"<" + X + r"\.T\[i\]>\[(\d)\]", r"<\1[\2][i]>", t)
+        t = _re.sub(X + r"\[(\d),<i>\]", r"<\1[\2][i]>", t)
+        t = _re.sub(X + r"\[(\d)\]\[<i>\]", r"<\1[\2][i]>", t)
+        return t
+    ok, seen, opaque = False, [], []
+    for r in rets:
+        if "solution" not in T(mod, inline_temporaries(f.node, r.value)):
+            continue  # the recursive calls for target lists on both sides of the start point
+        try:
+            el = element(f.node, inline_temporaries(f.node, r.value), {})
+        except NoElement as e:
+            opaque.append("element of %s (%s)" % (T(mod, r.value)[:60], e))
+            continue
+        if isinstance(el, str):
+            seen.append(columns(el))
+            if columns(el) == "Point2D(<solution.y[0][i]>,<solution.y[1][i]>)":
+                ok = True
+    detail = "i-th element: %s" % seen if ok else ("definite: the i-th returned point is %s, not Point2D(y[0][i], y[1][i])" % seen) if seen else \
+        ("not representable: %s" % opaque) if opaque else "no return built from the solution"
+    rep.ob("R1", "the result is the list of solution points, one per target value", ok, f.site(), detail, key="ode/result")
     # the f_R, f_Z passed in are the equilibrium's
     init = prog.func(MESH, "MeshRegion.__init__")
     pm = [n for n in ast.walk(init.node) if isinstance(n, ast.Call) and T(mod, n.func) in ("followPerpendicular",)]
